@@ -18,7 +18,7 @@ PROPS = {
     },
     "C02": {
         "spec_ops": ["60", "61"],
-        "rule": "op 61: well-formed messages of every payload kind, both byte orders, all optional header fields -> Message::as_bytes against Spec.Layout.spec_encode; op 60: dlt_message's verdict (message + consumed length / incomplete / reject) against Spec.Layout.spec_decode on canonical bytes with suffixes, every or one truncation of them (some in the wrong storage mode), dialect encodings (unused type-info bits, bool with any TYLE, NUL-padded / invalid-UTF-8 ids, interior NULs, size-0 strings, reserved SCOD, unknown MSTP/MTIN), malformed / mutated / length-corrupted / random inputs, junk and partial markers in front of storage headers. On the model side these two ops run the EXTRACTED REFERENCE CODEC, not the nom-style model: a disagreement is a violation of the property itself.",
+        "rule": "op 61: well-formed messages of every payload kind, both byte orders, all optional header fields -> Message::as_bytes against Spec.Layout.spec_encode; op 60: dlt_message's verdict (message + consumed length / incomplete / reject) against Spec.Layout.spec_decode on canonical bytes with suffixes, every or one truncation of them (some in the wrong storage mode), dialect encodings (unused type-info bits, bool with any TYLE, NUL-padded / invalid-UTF-8 ids, interior NULs, size-0 strings, reserved SCOD, unknown MSTP/MTIN), malformed / mutated / length-corrupted / random inputs, junk and partial markers in front of storage headers, junk followed by every cut of small messages, and - small scope, exhaustively - EVERY byte string up to length 5 (quick) / 7 (thorough) over the alphabet {00,01,04,08,0e,20,21,41}. On the model side these two ops run the EXTRACTED REFERENCE CODEC, not the nom-style model: a disagreement is a violation of the property itself.",
         "assumptions": ["Spec/Layout.v is the independent description of the AUTOSAR DLT layout (own bit-field code via testbit/div/mod, total non-streaming readers, cut-then-decode); it is proved equal to the model of the crate for all inputs (c02_encode, c02_decode) and run against the crate here"],
     },
     "C03": {
